@@ -16,8 +16,8 @@ from fractions import Fraction
 VERIF = os.path.dirname(os.path.dirname(os.path.abspath(__file__)))
 COQ = os.path.join(VERIF, "coq")
 BUILD = os.path.join(VERIF, "build")
-OUT = os.path.join(VERIF, "out")
-EVID = os.path.join(VERIF, "evidence")
+OUT = os.environ.get("VERIF_OUT_DIR", os.path.join(VERIF, "out"))
+EVID = os.environ.get("VERIF_EVID_DIR", os.path.join(VERIF, "evidence"))
 REPO = os.environ.get("VERIF_REPO", "/repo")
 IMPL_PY = os.environ.get("VERIF_IMPL_PY", "/venv/bin/python")
 MODEL_BIN = os.path.join(BUILD, "pyqsp_model")
